@@ -11,14 +11,16 @@ Definition schedule := nat -> bool.
     next schedule position *)
 Record outcome := mkOut { ok : bool; handed : nat; next : nat }.
 
-(** SubmitFlights: Get (getCreateTraveller: ANY failure is treated as "no record yet" - known
-    finding), then Put of the updated record *)
+(** SubmitFlights: Get (with the repair: a failed read that is not "no such record" is reported), then
+    Put of the updated record *)
 Definition submit_f (sch : schedule) (i : nat) : outcome :=
+  if sch i then {| ok := false; handed := 0; next := S i |} else
   let put_fails := sch (S i) in
   {| ok := negb put_fails; handed := if put_fails then 0 else 1; next := S (S i) |}.
 
-(** Make: Get (same remark), version check, Put (whose error is now returned) *)
+(** Make: Get (same), version check, Put (whose error is returned) *)
 Definition make_f (sch : schedule) (i : nat) (current : bool) : outcome :=
+  if sch i then {| ok := false; handed := 0; next := S i |} else
   if current then
     let put_fails := sch (S i) in {| ok := negb put_fails; handed := if put_fails then 0 else 1; next := S (S i) |}
   else {| ok := false; handed := 0; next := S i |}.
